@@ -134,6 +134,14 @@ class Facts:
             if path in refs:
                 out += self.by_path.get(p, [])
                 out += [b for b in self.bodies if b.kind == "Closure" and b.path.startswith(p + "::{closure")]
+        # a closure written in a helper the pinned tree does not have, spliced into `path`, is a closure of `path`
+        from . import inline
+        known = inline.known_fns()
+        seen = set()
+        for caller, callee in self.inlined:
+            if caller == path and callee not in known and callee not in seen:
+                seen.add(callee)
+                out += [b for b in self.bodies if b.kind == "Closure" and b.path.startswith(callee + "::{closure") and not _absorbed(b.path, absorbed) and b not in out]
         return out
 
     def user_bodies(self):
